@@ -17,15 +17,18 @@ FILES = [
     "qucumber/rbm/purification_rbm.py",
     "qucumber/utils/gradients_utils.py",
 ]
-REQUIRED_THEOREMS = ["C20_module", "C20_no_alias", "C20_sizes", "C20_reinit", "C20_fit_guard", "C20_phase_aux_bias_zero"]
+REQUIRED_THEOREMS = ["C20_module", "C20_no_alias", "C20_sizes", "C20_reinit", "C20_module_ctor", "C20_init_module", "C20_fit_guard",
+                     "C20_phase_aux_bias_zero"]
 EXTRA_TRUSTED = [
     "torch.optim.SGD / Adam follow the scalar update rules of QV.Model.PhaseAux (checked numerically on random gradient sequences, rtol 1e-6)",
     "storage identity observed through data_ptr() with every observed tensor kept alive; contents through byte hashes",
 ]
 RULE = ("case = random history (<= 12 ops quick / <= 30 thorough) of: construct from sizes (num_hidden/num_aux None, 0 or explicit), "
-        "create RBM module, write into module (non-zero biases), construct from module (3 state types, incl. BinaryRBM -> DensityMatrix), external "
+        "create RBM module (zero_weights True / False / not passed; num_hidden/num_aux None, 0 or explicit), module.initialize_parameters("
+        "zero_weights True / False / not passed), write into module (non-zero biases), construct from module (3 state types, incl. BinaryRBM -> DensityMatrix), external "
         "in-place write into ONE network, fit with bases (SGD, SGD+momentum+weight-decay, Nesterov, Adam, Adam+weight-decay), fit without bases, "
-        "reinitialize_parameters, save/load/autoload; identities (data_ptr classes), shapes, tokens, error kinds compared exactly with the model "
+        "reinitialize_parameters (often followed by a fit), save/load/autoload; the 'random' weights the model is given are recomputed "
+        "independently (N(0,1)/sqrt(n) from torch's generator state before the op), never read from the implementation; identities (data_ptr classes), shapes, tokens, error kinds compared exactly with the model "
         "after every op; plus gradient-row and optimizer-rule cases. non-trivial iff the history contains a module-built or reinitialised "
         "two-network state that is subsequently written or trained; distinct by hash of the plan")
 
@@ -58,9 +61,17 @@ def gen_plan(rng, maxlen):
             nv, nh, na = arch("dens" if k == "purif" else "pos")
             ms = rng.randrange(3)
             modules[ms] = k
-            plan.append({"t": "mkModule", "mslot": ms, "k": k, "nv": nv, "nh": nh, "na": na})
-            if rng.random() < 0.7:
+            mk = {"t": "mkModule", "mslot": ms, "k": k, "nv": nv, "nh": nh, "na": na}
+            z = rng.random()
+            if z < 0.35:
+                mk["zw"] = True   # zero_weights=True: the option must not outlive the constructor call
+            elif z < 0.5:
+                mk["zw"] = False  # passed explicitly
+            plan.append(mk)
+            if rng.random() < 0.6:
                 plan.append({"t": "writeModule", "mslot": ms})
+            if rng.random() < 0.25:
+                plan.append({"t": "initModule", "mslot": ms, "zw": rng.choice([None, None, True, False])})
         elif r < 0.42 and modules:
             ms = rng.choice(sorted(modules))
             k = modules[ms]
@@ -77,8 +88,11 @@ def gen_plan(rng, maxlen):
             if kind == "dens" and net == "rbm_ph" and rng.random() < 0.6:
                 net = "rbm_am"
             plan.append({"t": "write", "slot": slot, "net": net})
-        elif r < 0.60 and modules:
+        elif r < 0.58 and modules:
             plan.append({"t": "writeModule", "mslot": rng.choice(sorted(modules))})
+        elif r < 0.62 and modules:
+            # module.initialize_parameters([zero_weights=...]) on a module the caller holds (possibly the amplitude network of a state)
+            plan.append({"t": "initModule", "mslot": rng.choice(sorted(modules)), "zw": rng.choice([None, None, True, False])})
         elif r < 0.76:
             plan.append({"t": "train", "slot": slot, "bases": True, "opt": rng.choice(sorted(so.OPTIMS)), "epochs": rng.choice([1, 2, 3]),
                          "lr": rng.choice([0.05, 0.5])})
@@ -86,6 +100,8 @@ def gen_plan(rng, maxlen):
             plan.append({"t": "train", "slot": slot, "bases": False, "opt": "sgd", "epochs": 1})
         elif r < 0.93:
             plan.append({"t": "reinit", "slot": slot})
+            if rng.random() < 0.4:  # ... and train the re-initialised state (parameter order / identity after a reset)
+                plan.append({"t": "train", "slot": slot, "bases": True, "opt": rng.choice(sorted(so.OPTIMS)), "epochs": 1, "lr": 0.5})
         elif r < 0.96:
             plan.append({"t": "save", "slot": slot, "md": None, "path": rng.randrange(2)})
         elif r < 0.98:
@@ -117,6 +133,27 @@ def net_snap(net):
     return {k: p.detach().clone() for k, p in net.named_parameters()}
 
 
+ORDER = {"binary": ["weights", "visible_bias", "hidden_bias"],
+         "purif": ["weights_W", "weights_U", "visible_bias", "hidden_bias", "aux_bias"]}
+
+
+def order_ok(net):
+    """registration order of the parameters (what parameters() / state_dict() / the gradient vectors rely on)"""
+    want = ORDER["purif" if hasattr(net, "weights_U") else "binary"]
+    return [k for k, _ in net.named_parameters()] == want and list(net.state_dict().keys()) == want
+
+
+def weights_are(net, ref):
+    """the weight matrices of `net` are bit for bit the reference tensors `ref` (in registration order)"""
+    ws = [p for k, p in net.named_parameters() if k.startswith("weights")]
+    return len(ws) == len(ref) and all(p.shape == r.shape and torch.equal(p.detach(), r) for p, r in zip(ws, ref))
+
+
+def weights_random(net):
+    """every non-empty weight matrix has a non-zero entry (a continuous draw is never exactly zero)"""
+    return all(bool(torch.any(p != 0)) for k, p in net.named_parameters() if k.startswith("weights") and p.numel() > 0)
+
+
 def biases_zero(net):
     return all(bool(torch.all(p == 0)) for k, p in net.named_parameters() if k.endswith("bias"))
 
@@ -131,7 +168,8 @@ class Hooks:
 
     def theorem(self, op, comp):
         return {"construct": "C20_sizes", "constructFrom": "C20_module", "write": "C20_no_alias", "writeModule": "C20_no_alias",
-                "train": "C20_fit_guard, C20_phase_aux_bias_zero, C20_no_alias", "reinit": "C20_reinit"}.get(op["t"], "model of the operation")
+                "train": "C20_fit_guard, C20_phase_aux_bias_zero, C20_no_alias", "reinit": "C20_reinit",
+                "mkModule": "C20_module_ctor", "initModule": "C20_init_module"}.get(op["t"], "model of the operation")
 
     def cs(self, op):
         return {"plan": self.case["plan"], "tseed": self.case["tseed"], "op": op}
@@ -146,6 +184,11 @@ class Hooks:
             pre["ptrs"] = {n: ptrs(getattr(st, n)) for n in st.networks}
         if t == "constructFrom":
             pre["module"] = net_snap(real.modules[op["mslot"]])
+        if t == "initModule":
+            mod = real.modules[op["mslot"]]
+            pre["shapes"] = shapes(mod)
+            pre["others"] = {(s, n): net_snap(getattr(st, n)) for s, st in real.models.items() for n in st.networks
+                             if getattr(st, n) is not mod}
         for st in real.models.values():
             for n in st.networks:
                 self.seen_ptrs.update(ptrs(getattr(st, n)))
@@ -156,6 +199,9 @@ class Hooks:
     def after(self, real, op, pre, err, w):
         ctx, t = self.ctx, op["t"]
         cs = self.cs(op)
+        nets = [getattr(st, n) for st in real.models.values() for n in st.networks] + list(real.modules.values())
+        ctx.oracle("every network keeps its parameters registered in the documented order", all(order_ok(x) for x in nets), cs,
+                   detail={"orders": sorted({tuple(k for k, _ in x.named_parameters()) for x in nets})}, sig=f"{t}/parameter-order")
         if t == "construct" and err is None:
             st = real.models[op["slot"]]
             self.interesting.discard(op["slot"])
@@ -168,8 +214,31 @@ class Hooks:
                 ok = ok and st.rbm_am is not st.rbm_ph and not (set(a) & set(b))
                 ok = ok and all(not torch.equal(p, q) for (k, p), (_, q) in zip(st.rbm_am.named_parameters(), st.rbm_ph.named_parameters())
                                 if k.startswith("weights") and p.numel() > 0)
+            ok = ok and all(weights_are(getattr(st, n), real.last_ref[j]) for j, n in enumerate(st.networks))
             ctx.oracle("sizes branch: requested/defaulted shapes, random weights, zero biases, independent networks", ok, cs,
                        detail={"shapes": {n: shapes(getattr(st, n)) for n in st.networks}, "expected": exp}, sig="construct/sizes", theorem="C20_sizes")
+        if t == "mkModule" and err is None:
+            mod = real.modules[op["mslot"]]
+            zw = bool(op.get("zw", False))
+            exp = expected_shapes("dens" if op["k"] == "purif" else "pos", op["nv"], op["nh"], op["na"])
+            ok = shapes(mod) == exp and biases_zero(mod) and order_ok(mod) and not (set(ptrs(mod)) & self.seen_ptrs)
+            ok = ok and (all(bool(torch.all(p == 0)) for k, p in mod.named_parameters()) if zw
+                         else weights_are(mod, real.last_ref[0]) and weights_random(mod))
+            ctx.oracle("RBM constructor: requested/defaulted shapes, zero biases, weights drawn N(0,1)/sqrt(n) (all zero iff zero_weights=True)",
+                       ok, cs, detail={"shapes": shapes(mod), "expected": exp, "zero_weights": zw}, sig="mkModule/ctor", theorem="C20_module_ctor")
+            ctx.count(f"mkModule_zw={op.get('zw')}")
+        if t == "initModule" and err is None:
+            mod = real.modules[op["mslot"]]
+            zw = op.get("zw")
+            ok = shapes(mod) == pre["shapes"] and biases_zero(mod) and order_ok(mod) and not (set(ptrs(mod)) & self.seen_ptrs)
+            ok = ok and (all(bool(torch.all(p == 0)) for k, p in mod.named_parameters()) if zw is True
+                         else weights_are(mod, real.last_ref[0]) and weights_random(mod))
+            ok = ok and all(so.nets_equal(net_snap(getattr(real.models[s], n)), snap) for (s, n), snap in pre["others"].items()
+                            if s in real.models and n in real.models[s].networks)
+            ctx.oracle("initialize_parameters: unchanged shapes, new storage, zero biases, weights redrawn (all zero only if THIS call "
+                       "passes zero_weights=True), other networks untouched", ok, cs, detail={"zero_weights": zw, "shapes": shapes(mod)},
+                       sig="initModule/redraw", theorem="C20_init_module")
+            ctx.count(f"initModule_zw={zw}")
         if t == "constructFrom":
             mod = real.modules[op["mslot"]]
             bad = op["kind"] == "dens" and not hasattr(mod, "num_aux")
@@ -200,15 +269,20 @@ class Hooks:
         if t == "reinit" and err is None:
             st = real.models[op["slot"]]
             ok = True
-            for n in st.networks:
+            for j, n in enumerate(st.networks):
                 net = getattr(st, n)
-                ok = ok and shapes(net) == pre["shapes"][n] and biases_zero(net)
+                ok = ok and shapes(net) == pre["shapes"][n] and biases_zero(net) and order_ok(net)
+                # redrawn: bit for bit the next N(0,1)/sqrt(n) draws of torch's generator, network by network — never zeros
+                ok = ok and weights_are(net, real.last_ref[j]) and weights_random(net)
                 ok = ok and not (set(ptrs(net)) & self.seen_ptrs)
                 ok = ok and all(not torch.equal(p, pre["nets"][n][k]) for k, p in net.named_parameters() if k.startswith("weights") and p.numel() > 0)
             if len(st.networks) == 2:
                 ok = ok and not (set(ptrs(st.rbm_am)) & set(ptrs(st.rbm_ph)))
                 self.interesting.add(op["slot"])
-            ctx.oracle("reinitialise: every network gets fresh parameters, unchanged shapes, zero biases", ok, cs, sig="reinit/all-networks", theorem="C20_reinit")
+            ctx.oracle("reinitialise: every network gets fresh parameters (weights redrawn from the generator), unchanged shapes, zero biases", ok, cs,
+                       detail={"weights_max_abs": {n: [float(p.abs().max()) if p.numel() else None for k, p in getattr(st, n).named_parameters()
+                                                       if k.startswith("weights")] for n in st.networks}},
+                       sig="reinit/all-networks", theorem="C20_reinit")
         if t == "train":
             st = real.models[op["slot"]]
             two = len(st.networks) == 2
@@ -353,6 +427,25 @@ def fixed_cases():
         c(t="write", slot=0, net="rbm_am"), c(t="train", slot=0, bases=True, opt="nest", epochs=2, lr=0.5),
         c(t="construct", slot=1, kind="dens", nv=2, nh=0, na=None, ud=None), c(t="construct", slot=2, kind="cplx", nv=3, nh=0, na=None, ud=None),
         c(t="construct", slot=2, kind="pos", nv=1, nh=None, na=None, ud=None), c(t="train", slot=2, bases=False, opt="adam", epochs=1)]}
+
+
+    # constructor options carried into later operations: modules built with zero_weights=True / False, explicit sizes incl. 0,
+    # then construct -> train -> reinitialise -> train -> save -> load -> reinitialise -> save, initialize_parameters(zero_weights=...)
+    yield {"type": "history", "tseed": 203, "plan": [
+        c(t="mkModule", mslot=0, k="binary", nv=2, nh=3, na=None, zw=True), c(t="constructFrom", slot=0, kind="cplx", mslot=0, ud=None),
+        c(t="reinit", slot=0), c(t="train", slot=0, bases=True, opt="sgd", epochs=1, lr=0.5), c(t="reinit", slot=0),
+        c(t="train", slot=0, bases=True, opt="adam", epochs=1, lr=0.05), c(t="save", slot=0, md=None, path=0), c(t="load", slot=0, path=0),
+        c(t="reinit", slot=0), c(t="save", slot=0, md=None, path=1), c(t="initModule", mslot=0, zw=True), c(t="reinit", slot=0),
+        c(t="initModule", mslot=0, zw=None), c(t="constructFrom", slot=1, kind="pos", mslot=0, ud=None), c(t="reinit", slot=1),
+        c(t="train", slot=1, bases=False, opt="sgdm", epochs=1, lr=0.5)]}
+    yield {"type": "history", "tseed": 204, "plan": [
+        c(t="mkModule", mslot=1, k="purif", nv=2, nh=0, na=0, zw=True), c(t="initModule", mslot=1, zw=None),
+        c(t="mkModule", mslot=0, k="purif", nv=2, nh=3, na=1, zw=True), c(t="writeModule", mslot=0),
+        c(t="constructFrom", slot=0, kind="dens", mslot=0, ud=None), c(t="train", slot=0, bases=True, opt="nest", epochs=1, lr=0.5),
+        c(t="reinit", slot=0), c(t="train", slot=0, bases=True, opt="sgd", epochs=1, lr=0.5), c(t="save", slot=0, md=None, path=0),
+        c(t="reinit", slot=0), c(t="load", slot=0, path=0), c(t="reinit", slot=0), c(t="save", slot=0, md=None, path=0),
+        c(t="mkModule", mslot=2, k="binary", nv=3, nh=None, na=None, zw=False), c(t="initModule", mslot=2, zw=True),
+        c(t="constructFrom", slot=1, kind="cplx", mslot=2, ud=None), c(t="reinit", slot=1), c(t="initModule", mslot=2, zw=False)]}
 
 
 def gen_cases(ctx, thorough, scale=1):
